@@ -37,11 +37,15 @@ pub struct FCase {
   pub deferred_writes: usize,
   pub asynchronous: bool,
   pub post: Vec<FEv>,
+  /// asynchronous form: bit i set = the executor polls the still-pending future once more before post event i
+  /// without having been woken (a sibling in a select!/join! woke the task), with the task's then-current waker;
+  /// Future::poll's contract: only the waker of the most recent poll has to be woken
+  pub spurious_polls: u32,
 }
 
 pub fn case_json(c: &FCase) -> Value {
   json!({"writer_reliable": c.writer_reliable, "async": c.asynchronous,
-    "deferred_writes": c.deferred_writes,
+    "deferred_writes": c.deferred_writes, "spurious_polls_before_post_events": c.spurious_polls,
     "pre": c.pre.iter().map(|e| format!("{e:?}")).collect::<Vec<_>>(),
     "post": c.post.iter().map(|e| format!("{e:?}")).collect::<Vec<_>>()})
 }
@@ -78,7 +82,10 @@ pub fn gen_case(rng: &mut Rng) -> FCase {
     4 => 16,
     _ => 0,
   };
-  FCase { writer_reliable: !rng.chance(1, 12), pre, deferred_writes, asynchronous: rng.chance(1, 2), post }
+  let writer_reliable = !rng.chance(1, 12);
+  let asynchronous = rng.chance(1, 2);
+  let spurious_polls = if rng.chance(1, 2) { rng.below(256) as u32 } else { 0 };
+  FCase { writer_reliable, pre, deferred_writes, asynchronous, post, spurious_polls }
 }
 
 #[derive(Default, Clone)]
@@ -144,6 +151,7 @@ pub struct FOutcome {
   pub timed_out: bool,
   pub stayed_pending: bool,
   pub boundary_acks: u64,
+  pub spurious_polls: u64,
 }
 
 fn apply_to_bench(wb: &mut WriterBench, ev: &FEv, abs: Option<(usize, i64)>, counts: &mut [i32; NREADERS], next_id: &mut u32) {
@@ -174,7 +182,7 @@ pub fn run_case(case: &FCase, acc: &mut Acc, tag: &Value) -> FOutcome {
   let mut counts = [0i32; NREADERS];
   let mut next_id = 0u32;
   let replay = || json!({"case": tag, "script": case_json(case)});
-  let mut out = FOutcome { sig: 0, completed_true: false, timed_out: false, stayed_pending: false, boundary_acks: 0 };
+  let mut out = FOutcome { sig: 0, completed_true: false, timed_out: false, stayed_pending: false, boundary_acks: 0, spurious_polls: 0 };
   for ev in &case.pre {
     let abs = m.apply(ev);
     apply_to_bench(&mut wb, ev, abs, &mut counts, &mut next_id);
@@ -383,6 +391,17 @@ pub fn run_case(case: &FCase, acc: &mut Acc, tag: &Value) -> FOutcome {
       repoll_if_woken!("after-writer-processed-late-command");
     }
     for (i, ev) in case.post.iter().enumerate() {
+      if result.is_none() && case.spurious_polls >> i & 1 == 1 {
+        // every poll hands over a waker of a new generation; wakes of older generations do not count
+        wakes_seen = wb.async_wake_count();
+        result = wb.async_wait_poll();
+        polls += 1;
+        out.spurious_polls += 1;
+        judge(&result, &m, acc, &format!("spurious-poll-before-post-event-{i}"));
+        if result.is_some() {
+          break;
+        }
+      }
       let abs = m.apply(ev);
       if let Some((r, base)) = abs {
         if m.matched[r] && m.reliable[r] && (base == m.wait_until || base == m.wait_until + 1) {
@@ -402,7 +421,7 @@ pub fn run_case(case: &FCase, acc: &mut Acc, tag: &Value) -> FOutcome {
       (None, true) => {
         acc.violate(
           "C20/async-complete:future-not-woken-after-condition-became-true",
-          json!({"polls": polls, "wakes": wb.async_wake_count(), "condition_true_at_call": sim_pending_at_call_empty(case, &m), "note": "executor discipline: the future is re-polled only when its waker was invoked"}),
+          json!({"polls": polls, "wakes_of_latest_waker": wb.async_wake_count(), "wakes_of_superseded_wakers": wb.async_stale_wake_count(), "condition_true_at_call": sim_pending_at_call_empty(case, &m), "note": "executor discipline: the future is re-polled only when its waker was invoked"}),
           replay(),
         );
       }
